@@ -3,6 +3,7 @@ package main
 // Long-lived incremental solver processes (z3 -in / cvc5 --incremental) and one-shot portfolio queries.
 
 import (
+	"syscall"
 	"bufio"
 	"context"
 	"fmt"
@@ -74,6 +75,7 @@ func solverArgs(kind string) (string, []string) {
 func StartSolver(kind string, timeoutMs int) (*Solver, error) {
 	bin, args := solverArgs(kind)
 	cmd := exec.Command(bin, args...)
+	cmd.SysProcAttr = &syscall.SysProcAttr{Pdeathsig: syscall.SIGKILL}
 	in, err := cmd.StdinPipe()
 	if err != nil {
 		return nil, err
@@ -364,9 +366,17 @@ func OneShot(kind string, script string, timeout time.Duration) string {
 		}
 		a2 = append(a2, a)
 	}
+	// the solver's own hard time limit as well: if this process is killed the child must not run on for ever
+	secs := int(timeout/time.Second) + 5
+	if strings.HasPrefix(kind, "cvc5") {
+		a2 = append(a2, fmt.Sprintf("--tlimit=%d", secs*1000))
+	} else {
+		a2 = append(a2, fmt.Sprintf("-T:%d", secs))
+	}
 	ctx, cancel := context.WithTimeout(context.Background(), timeout)
 	defer cancel()
 	cmd := exec.CommandContext(ctx, bin, a2...)
+	cmd.SysProcAttr = &syscall.SysProcAttr{Pdeathsig: syscall.SIGKILL}
 	cmd.Stdin = strings.NewReader(script)
 	t0 := time.Now()
 	out, _ := cmd.Output()
